@@ -6,9 +6,9 @@ FILES = ["common/vh.go", "routing/core_world.go", "routing/core_replay.go"]
 ALGOS = ["epidemic", "spray", "binary_spray", "prophet", "dtlsr"]
 
 
-def attr(origin, dst, prev="none", life="long", clockless=False, tsg=0, req=(), admin=False, rptlocal=False, hop=(), hasunk=False, unkf=(), copies=0, time=False, frag=False):
+def attr(origin, dst, prev="none", life="long", clockless=False, tsg=0, req=(), admin=False, rptlocal=False, hop=(), hasunk=False, unkf=(), copies=0, time=False, frag=False, rptalias=False):
     return dict(origin=origin, dst=dst, prev=prev, life=life, clockless=clockless, tsg=tsg, req=list(req), admin=admin, rptlocal=rptlocal,
-                hop=list(hop), hasunk=hasunk, unkf=list(unkf), copies=copies, time=time, frag=frag)
+                hop=list(hop), hasunk=hasunk, unkf=list(unkf), copies=copies, time=time, frag=frag, rptalias=rptalias)
 
 
 def tla_val(v):
@@ -32,6 +32,7 @@ def mc_module(fam):
         f["unkf"] = set(f["unkf"])
         f.pop("time")
         f.pop("frag")
+        f.pop("rptalias")
         return "[" + ", ".join("%s |-> %s" % (k, tla_val(v)) for k, v in f.items()) + "]"
     cat = fam["cat"]
     return {"MCCore.tla": "---- MODULE MCCore ----\nEXTENDS Core\nMCPeers == %s\nMCCat == %s\nMCAttr == (%s)\nMCEnabled == %s\nMCSensors == %s\n====\n" % (
@@ -64,7 +65,10 @@ def run_families(chk, prop, plans, tier, max_hist=None):
             n, depth = pl["sim"]
             jobs.append(("sim%d" % i, dict(base, cfg_text=cfg_text(pl["algo"], pl["budget"], depth, "final", view=False), name="core-sim-%d" % i,
                                            workers=1, simulate=n, depth=depth + 5, tseed=seed() * 101 + i)))
+    import time as _t
+    _t0 = _t.time()
     res = tlc_parallel([(l, dict(kw, workers=kw.get('workers', 2))) for l, kw in jobs], par=8)
+    chk.cov.setdefault("phase_wall_s", {})["tlc"] = round(_t.time() - _t0, 1)
     lines = []
     total = 0
     rng = random.Random(seed())
@@ -101,8 +105,11 @@ def run_families(chk, prop, plans, tier, max_hist=None):
     if total == 0:
         raise InfraError("no behaviours generated")
     inp = write_input("core-%s.ndjson" % prop, lines)
+    _t1 = _t.time()
+    chk.cov["phase_wall_s"]["digest"] = round(_t1 - _t0 - chk.cov["phase_wall_s"]["tlc"], 1)
     st = run_harness(chk, "core replay", "pkg/routing", FILES, "TestVerifCoreReplay", env={"VERIF_IN": inp, "VERIF_PAR": 16},
                      timeout=3000, crash_key=prop + ":core/process-crash")
+    chk.cov["phase_wall_s"]["replay"] = round(_t.time() - _t1, 1)
     if st.get("histories") != total:
         raise InfraError("replay incomplete: %s" % st)
     if st.get("histories_timing", 0) > 0.2 * total:
@@ -118,7 +125,9 @@ def own_violations(chk, prop):
     other = {}
     for v in chk.violations:
         p, _, key = v["key"].partition(":")
-        if p == prop:
+        if not re.fullmatch(r"C\d\d", p):
+            keep.append(v)              # reported by this check's own harness, not by the shared replay
+        elif p == prop:
             v["key"] = key
             keep.append(v)
         else:
